@@ -121,6 +121,8 @@ def run(ctx):
     idx = 0
     for pi, prog in enumerate(progs):
         pls = fr.all_placements(prog, pairs=True, max_pairs=30 if ctx.quick else 500, rng=random.Random(pi))
+        # recording switched on AGAIN (it already is) at some step of the operation: an idempotent call of the host's settings sync
+        pls += [{pos: 'reenable'} for pos, op_, dn in fr.dry_trace(prog) if pos[0] == 'main'][:4]
         # every second program runs all its placements one after the other on ONE recorder (same thread): the property holds
         # for every recording the recorder starts, whatever happened in earlier runs (interrupts, discards, failed saves)
         session = None
